@@ -1,4 +1,6 @@
 //! vh - the in-process conformance harness. One binary, one sub-command per binding.
+mod mangle;
+mod pos;
 mod sp;
 mod term;
 
@@ -10,6 +12,8 @@ fn main() {
     }
     let rest = &args[2..];
     let rc = match args[1].as_str() {
+        "mangle" => mangle::run(rest),
+        "position" => pos::run(rest),
         "sp-replay" => sp::replay(rest),
         "sp-random" => sp::random(rest),
         "term-replay" => term::replay(rest),
